@@ -44,6 +44,8 @@ FLAVOURS = {
     "windows": ("win32", "nt", "_pswindows", "_psutil_windows"),
 }
 BSDS = ("freebsd", "openbsd", "netbsd")
+# native functions that scan a system-wide table and filter it by pid ("those C functions who do not raise NSP", _psbsd.py)
+SILENT_FOR_A_DEAD_PID = {"openbsd": ("net_connections", "proc_threads"), "netbsd": ("net_connections", "proc_num_fds")}
 PROCFS = ("sunos", "aix")
 
 # native functions that do not exist in that flavour's C extension (the modules
@@ -321,6 +323,7 @@ class Env:
         self.over = dict(over or {})    # native name -> replacement default
         self.in_probe = 0
         self.in_ident = 0
+        self.dead = False
         self.waited = False
         self.calls = []
         self.points = []            # fault points (process-scoped calls of the method itself)
@@ -353,6 +356,16 @@ class Env:
             point = len(self.points)
             self.points.append(fn)
         self.log(fn, scoped, point)
+        if point is not None and self.mode.startswith("dies@") and not self.dead and point >= int(self.mode[5:]):
+            self.dead = True          # the process exits and is reaped just before this native call, and stays gone
+            self.mode = "gone"        # (what the probes answer from now on)
+        if scoped and getattr(self, "dead", False):
+            if fn in SILENT_FOR_A_DEAD_PID.get(self.fl, ()):
+                # system-wide tables filtered by pid: nothing matches any more, and nothing fails
+                v = self.default(fn, a, k)
+                return type(v)() if isinstance(v, (list, tuple)) else 0
+            e = make_oserror(["errno", "ESRCH"])
+            raise e
         if point is not None:
             fault = self.plan.get(point)
             if fault is None and self.sticky is not None:
